@@ -96,8 +96,12 @@ def generate(seed: int, tier: str = "quick") -> Dict[str, Any]:
     if cfg["pre"] == "same":
         cfg["pre"] = runners[0]
     # schedule policy (per run, not per workload)
-    kind = rs.choice(["pct", "pct", "pct", "random", "random", "hot", "hot", "hot", "roundrobin",
-                      "focus", "focus", "focus", "focus"])
+    # the GROUP schedules of one workload are spread over the policies systematically: three of
+    # them focus on the workload's three rarest shared-state functions (see execute())
+    slot = seed & 15
+    kind = ["pct", "pct", "random", "hot", "hot", "focus", "focus", "focus"][slot % GROUP]
+    if rs.random() < 0.25:
+        kind = rs.choice(["pct", "random", "hot", "roundrobin", "focus"])
     pol: Dict[str, Any] = {"kind": kind, "seed": kit.H(seed, "policy")}
     if kind == "pct":
         pol["depth"] = rs.choice([1, 2, 2, 3, 3])
@@ -109,7 +113,13 @@ def generate(seed: int, tier: str = "quick") -> Dict[str, Any]:
     elif kind == "focus":
         from .sched import FOCUS_CHOICES
 
-        pol["focus"] = rs.choice(FOCUS_CHOICES) if rs.random() < 0.3 else f"auto:{rs.randrange(1 << 20)}"
+        c = rs.random()
+        if c < 0.2:
+            pol["focus"] = rs.choice(FOCUS_CHOICES)
+        elif c < 0.4:
+            pol["focus"] = f"auto:{rs.randrange(1 << 20)}"
+        else:
+            pol["focus"] = f"rank:{slot % 3}"  # the (slot%3)-th rarest shared hot function
         pol["p_in"] = rs.choice([0.2, 0.5, 0.5, 1.0])
         pol["p_out"] = rs.choice([0.0, 0.0002, 0.001])
     else:
@@ -283,7 +293,7 @@ def execute(trace: Dict[str, Any]) -> Dict[str, Any]:
     k = sum(a["steps"] for a in alone.values())
     cap = 50 * k + 10000
     policy = trace["policy"]
-    if policy.get("kind") == "focus" and str(policy.get("focus", "")).startswith("auto:"):
+    if policy.get("kind") == "focus" and str(policy.get("focus", "")).startswith(("auto:", "rank:")):
         # the focus function is chosen among the functions touching shared state (sim/hotness.py)
         # that at least two of the threads actually execute when run alone
         count: Dict[str, int] = {}
@@ -297,9 +307,14 @@ def execute(trace: Dict[str, Any]) -> Dict[str, Any]:
         # weight a candidate by 1/sqrt(lines it executes), deterministically from the seed
         import random as _random
 
-        pick = _random.Random(int(policy["focus"].split(":")[1]))
-        weights = [1.0 / max(1.0, lines.get(q, 1)) ** 0.5 for q in cands]
-        policy = dict(policy, focus=pick.choices(cands, weights)[0])
+        mode, _, arg = policy["focus"].partition(":")
+        if mode == "rank":
+            ranked = sorted(cands, key=lambda q: (lines.get(q, 0), q))
+            policy = dict(policy, focus=ranked[int(arg) % len(ranked)])
+        else:
+            pick = _random.Random(int(arg))
+            weights = [1.0 / max(1.0, lines.get(q, 1)) ** 0.5 for q in cands]
+            policy = dict(policy, focus=pick.choices(cands, weights)[0])
     res = run_threads(threads, policy, pre, trace_lark, k, cap)
     violations: List[Dict[str, Any]] = []
     stats: Dict[str, int] = {}
